@@ -14,9 +14,11 @@ use std::sync::Arc;
 const NFIELDS: usize = 17;
 
 /// one single-field metadata mutation; returns the field's name
-fn mutate(v: &mut Voice, field: usize, rng: &mut Rng) -> &'static str {
+fn mutate(v: &mut Voice, field: usize, rng: &mut Rng, stream_hint: usize) -> &'static str {
     let ns = v.stream_models.len();
-    let s = rng.below(ns);
+    // (the stream is chosen by the list shape, so that every stream is hit over the six shapes)
+    let _ = rng.below(ns);
+    let s = stream_hint % ns;
     match field {
         0 => {
             v.metadata.sampling_frequency += 1;
@@ -423,7 +425,7 @@ pub fn run(ctx: &mut Ctx) {
             base
         };
         let mut odd = (*base).clone();
-        let name = mutate(&mut odd, field, rng);
+        let name = mutate(&mut odd, field, rng, shape);
         let odd = Arc::new(odd);
         let (list, pos): (Vec<Arc<Voice>>, usize) = match shape {
             0 => (vec![base.clone(), odd.clone()], 1),
@@ -488,6 +490,40 @@ pub fn run(ctx: &mut Ctx) {
             code /= 7;
         }
         run_history(ctx, &e2, &labels2, &ups, &d2);
+    });
+
+    // ---- voice *files* that differ in one stream option only (an entry the engine itself
+    // does not interpret included): loading them together is an error
+    ctx.run_cases("file-options", 24, true, |ctx, rng, idx| {
+        let o = VoiceOpts::random(rng);
+        let spec = voicegen::generate(&o, &env.pool, rng);
+        let mut other = spec.clone();
+        let si = idx % other.streams.len();
+        let extra = ["NORMALIZE=1", "XYZ=2", "ALPHA=0.123", "comment"][(idx / 3) % 4];
+        match (idx / 12) % 2 {
+            0 => other.streams[si].options.push(extra.to_string()),
+            _ => other.streams[si].options.insert(0, extra.to_string()),
+        }
+        let pa = env.voice_file(&voicegen::write(&spec));
+        let pb = env.voice_file(&voicegen::write(&other));
+        let alone = Engine::load(&[&pb]).is_ok();
+        let lists: [Vec<&std::path::PathBuf>; 3] = [vec![&pa, &pb], vec![&pb, &pa], vec![&pa, &pa, &pb]];
+        for l in lists.iter() {
+            if !alone {
+                break; // (the extra entry made the file itself unloadable: nothing to combine)
+            }
+            ctx.count("voice_file_lists_checked", 1.0);
+            if Engine::load(l).is_ok() {
+                ctx.violation("incompatible-voices-combined", J::obj().set("field", format!("option entry {:?} in the file of one voice (stream {})", extra, si)).set("voices", l.len()));
+                break;
+            }
+        }
+        if Engine::load(&[&pa, &pa]).is_err() {
+            ctx.violation("compatible-voices-rejected", J::obj().set("voices", 2));
+        }
+        env.remove(&pa);
+        env.remove(&pb);
+        ctx.nontrivial(mix(&[5, idx as u64]));
     });
 
     // ---- random histories on 2..4 voice engines
